@@ -345,6 +345,19 @@ def floatT : Dnp.Window.Transc Float :=
 
 def ratToFloat (q : Rat) : Float := Float.ofInt q.num / Float.ofNat q.den
 
+def hydrationJ (j : Json) : M Json := do
+  let r (k : String) : M Rat := do jRat (← jField j k)
+  let E ← jRatList (← jField j "E"); let T1p ← jRatList (← jField j "T1p")
+  let spinC ← r "spinC"; let w ← r "omegaRatio"; let T10 ← r "T10"; let T100 ← r "T100"
+  let ksigma ← r "ksigma"; let tcorr ← r "tcorr"; let tb ← r "tcorr_bulk"; let dh ← r "D_H2O"; let ds ← r "D_SL"
+  let kr := Dnp.Hydration.krho T10 T100 spinC
+  pure (Json.mkObj [("outcome", "ok"),
+    ("ksigma_array", Json.arr ((Dnp.Hydration.ksigmaArray E T1p spinC w).map ratJ).toArray),
+    ("krho", ratJ kr), ("coupling_factor", ratJ (Dnp.Hydration.couplingFactor ksigma kr)),
+    ("klow", ratJ (Dnp.Hydration.klow ksigma kr)), ("Dlocal", ratJ (Dnp.Hydration.dlocal tb tcorr dh ds)),
+    ("field", ratJ (Dnp.Hydration.normalise Dnp.Generated.legacyRules "magnetic_field" (← r "field"))),
+    ("spin_C", ratJ (Dnp.Hydration.normalise Dnp.Generated.legacyRules "spin_C" (← r "spinC_in")))])
+
 def lineshapeJ (j : Json) : M Json := do
   let kind ← jStr (← jField j "kind")
   let x ← (← jRatList (← jField j "x")).mapM (fun q => pure (ratToFloat q))
@@ -548,6 +561,12 @@ partial def loop (h : IO.FS.Stream) (out : IO.FS.Stream) (s : Store) : IO Unit :
     else
     if (j.getObjVal? "op").toOption == some (Json.str "h5") then
       match h5J j with
+      | .ok r => do out.putStrLn (Json.compress r); loop h out s
+      | .error e => do
+        out.putStrLn (Json.compress (Json.mkObj [("outcome", Json.str ("driver-error:" ++ e))])); loop h out s
+    else
+    if (j.getObjVal? "op").toOption == some (Json.str "hydration") then
+      match hydrationJ j with
       | .ok r => do out.putStrLn (Json.compress r); loop h out s
       | .error e => do
         out.putStrLn (Json.compress (Json.mkObj [("outcome", Json.str ("driver-error:" ++ e))])); loop h out s
